@@ -159,12 +159,138 @@ def locate (m, at, direction = None):
     return p.idx, sgn
 # end def locate
 
-def build (spec):
+def build_api (spec, early_loads = False, late_sources = False, plain_list = False):
+    """ The model of the spec built with the classes of the library instead
+        of the command line, in the order the program uses - or, on
+        request, in another order the API permits: distributed-load
+        objects created before the geometry is moved and scaled
+        (early_loads), loads registered before the sources (late_sources),
+        a plain list of objects instead of a Geo_Container (plain_list,
+        only without transformations).
+    """
+    MM  = common.repo ()
+    def obj (g):
+        if g ['k'] == 'w':
+            return MM.Wire (int (g ['n']), *g ['p1'], *g ['p2'], g ['r'], tag = g.get ('tag'))
+        if g ['k'] == 'a':
+            return MM.Arc (int (g ['n']), g ['radius'], g ['a1'], g ['a2'], g ['r'], tag = g.get ('tag'))
+        a = [g ['length'], g ['turn'], g ['r'], g ['rx1'], g ['ry1']]
+        if g.get ('rx2') is not None:
+            a += [g ['rx2'], g ['ry2']]
+        return MM.Helix (int (g ['n']), *a, tag = g.get ('tag'))
+    def guard (fn):
+        try:
+            return common.guarded (fn, 'api build')
+        except ValueError as e:
+            raise common.Rejected (str (e))
+    geo = MM.Geo_Container ()
+    for k in 'ahw':
+        for g in spec ['geo']:
+            if g ['k'] == k:
+                geo.append (guard (lambda: obj (g)))
+    guard (geo.compute_tags)
+    dist = []
+    def make_dist ():
+        for l in spec.get ('loads') or []:
+            if l ['k'] not in ('skin', 'ins'):
+                continue
+            ws = list (geo) if l.get ('tag') is None else [geo.by_tag [l ['tag']]]
+            for w in ws:
+                aw = l.get ('tag') is None
+                if l ['k'] == 'skin':
+                    kw = dict (resistivity = l ['res']) if 'res' in l else dict (conductivity = l ['cond'])
+                    dist.append ((l ['k'], guard (lambda: MM.Skin_Effect_Load (w, all_wires = aw or None, **kw)), w))
+                else:
+                    dist.append ((l ['k'], guard (lambda: MM.Insulation_Load (w, l ['radius'], l ['eps'], all_wires = aw or None)), w))
+    if early_loads:
+        make_dist ()
+    tr = [t for t in spec.get ('tr') or [] if t [0] == 'rotate'] + [t for t in spec.get ('tr') or [] if t [0] == 'translate']
+    for kind, key, vec, tag in sorted (tr, key = lambda t: t [1]):
+        guard (lambda: getattr (geo, kind) (key, np.array (vec, float), tag))
+    for factor, tag in spec.get ('sc') or []:
+        guard (lambda: geo.scale (factor, tag))
+    for g in spec ['geo']:
+        if g ['k'] == 'w' and g.get ('taper'):
+            w = geo.by_tag [g ['tag']]
+            t = g ['taper']
+            w.segtype   = int (t [0])
+            w.taper_min = (t [1] or 0) if (t [1] is not None or t [2] is not None) else None
+            w.taper_max = t [2]
+    media = None
+    if spec.get ('media') is not None:
+        media = []
+        for n, md in enumerate (spec ['media']):
+            d = dict (boundary = spec.get ('boundary') or 'linear')
+            if n == 0 and spec.get ('radials'):
+                d.update (nradials = int (spec ['radials'][0]), radius = spec ['radials'][1])
+            if len (md) > 3 and md [3] is not None:
+                d.update (coord = md [3])
+            media.append (guard (lambda: MM.Medium (md [0], md [1], md [2], **d)))
+    if plain_list and not (spec.get ('tr') or spec.get ('sc') or dist):
+        # fresh objects in a plain list (tags given or automatic), as in the examples of the repository
+        gl = [guard (lambda: obj (g)) for k in 'ahw' for g in spec ['geo'] if g ['k'] == k]
+        for g in spec ['geo']:
+            if g ['k'] == 'w' and g.get ('taper'):
+                raise common.Rejected ('plain list with taper not generated')
+    else:
+        gl = geo
+    m  = guard (lambda: MM.Mininec (spec ['f'], gl, media = media))
+    geo = m.geo
+    def sources ():
+        cli = [s for s in (spec.get ('src') or []) if 'p' in s]
+        for s in cli or ([dict (p = [1], v = [1.0, 0.0])] if not [x for x in (spec.get ('src') or []) if 'at' in x] else []):
+            v = complex (*s ['v'])
+            if len (s ['p']) > 1:
+                e = MM.Excitation (cvolt = v, geo_tag = s ['p'][1], geo_idx = s ['p'][0] - 1)
+                guard (lambda: m.register_source (e, s ['p'][0] - 1, s ['p'][1]))
+            else:
+                guard (lambda: m.register_source (MM.Excitation (cvolt = v), s ['p'][0] - 1))
+    def loads ():
+        for kind in LUMPED_ORDER:
+            for l in spec.get ('loads') or []:
+                if l ['k'] != kind or 'at' in l:
+                    continue
+                if kind == 'z':
+                    ld = MM.Impedance_Load (complex (*l ['z']))
+                elif kind == 'rlc':
+                    ld = MM.Series_RLC_Load (l.get ('R'), l.get ('L'), l.get ('C'))
+                elif kind == 'trap':
+                    ld = MM.Trap_Load (l ['R'], l ['L'], l ['C'])
+                else:
+                    ld = guard (lambda: MM.Laplace_Load (a = list (l ['a']), b = list (l ['b'])))
+                l ['_obj'] = ld
+        for l in spec.get ('loads') or []:
+            if l ['k'] in LUMPED_ORDER and 'at' not in l:
+                for att in l ['att']:
+                    a = [None if att [0] == 'all' else int (att [0]) - 1] + [int (x) for x in att [1:]]
+                    guard (lambda: m.register_load (l ['_obj'], *a))
+                del l ['_obj']
+        if not early_loads:
+            make_dist ()
+        for k in ('skin', 'ins'):
+            for kk, ld, w in dist:
+                if kk == k:
+                    guard (lambda: m.register_load (ld, None, w.tag))
+    if late_sources:
+        loads ()
+        sources ()
+    else:
+        sources ()
+        loads ()
+    guard (m.fix_distributed_loads)
+    return m
+# end def build_api
+
+def build (spec, route = 'cli', **kw):
     """ Build the model through the command line (sources given by
-        location are registered through the API afterwards).
+        location are registered through the API afterwards), or through
+        the classes of the library (route = 'api', see build_api).
     """
     MM = common.repo ()
-    m  = common.build_argv (to_argv (spec))
+    if route == 'api':
+        m = build_api (spec, **kw)
+    else:
+        m = common.build_argv (to_argv (spec))
     by_loc = [s for s in (spec.get ('src') or []) if 'at' in s]
     if by_loc:
         assert not [s for s in spec ['src'] if 'p' in s]
@@ -653,6 +779,28 @@ def fam_ground (rng, fam = None, seg_hi = 1 / 21., seg_lo = 1 / 100., media = 'i
             if h - nn * segl * 0.436 < 1.2 * segl:
                 nn = max (2, int ((h - 1.2 * segl) / (segl * 0.436)))
             add (nn, [0, 0, h], np.array ([0, 0, h]) + v * nn * segl, rev = bool (rng.random () < 0.5))
+    elif fam == 'close':
+        # (only on request, outside the spacing rule of the thin-wire guidelines) separately grounded wires whose
+        # feet are a fraction of a segment apart: cage of monopoles, V of sloping wires, stub next to a monopole
+        n  = int (rng.integers (3, 12))
+        d  = max (segl * float (np.exp (rng.uniform (np.log (0.06), np.log (1.3)))), 3 * rad)
+        kind = str (rng.choice (['par', 'par3', 'V', 'stub']))
+        add (n, [0, 0, 0], [0, 0, n * segl], rev = rev)
+        feeds.append (dict (at = P ([0, 0, 0]).tolist (), dir = [0, 0, 1.]))
+        if kind in ('par', 'par3'):
+            add (n, [d, 0, 0], [d, 0, n * segl * float (rng.choice ([1, 0.9]))], rev = bool (rng.random () < 0.5))
+            feeds.append (dict (at = P ([d, 0, 0]).tolist (), dir = [0, 0, 1.]))
+            if kind == 'par3':
+                add (n, [0, d, 0], [0, d, n * segl], rev = bool (rng.random () < 0.5))
+        elif kind == 'V':
+            el = np.radians (rng.uniform (30, 70))
+            n2 = int (rng.integers (3, 10))
+            add (n2, [d, 0, 0], [d + n2 * segl * np.cos (el), 0, n2 * segl * np.sin (el)], rev = bool (rng.random () < 0.5))
+            feeds.append (dict (at = P ([d, 0, 0]).tolist (), dir = [0, 0, 1.]))
+        else:
+            n2 = int (rng.integers (1, 4))
+            add (n2, [d, 0, 0], [d, 0, n2 * segl], rev = bool (rng.random () < 0.5))
+        fam = 'close-' + kind
     med = [[0, 0, 0]] if media == 'ideal' else media
     spec = dict (f = f, geo = geo, fam = fam, media = med, feeds = feeds, src = [], loads = [])
     zn = float (np.random.default_rng ([int (f * 1000), len (geo), int (1e6 * rad / lam)]).choice ([0, 0, 0, 2.8e-17, 5.6e-17, 1e-13]))
